@@ -210,6 +210,10 @@ func HarnessC19Reconciler() {
 		u.Spec.Reason = nil
 		u.Spec.By = &v1beta1.Resource{APIVersion: "example.org/v1", Kind: "Using", ResourceRef: &v1beta1.ResourceRef{Name: "using-1"}}
 	}
+	// the Usage may itself be composed: it then already has an owner (its XR)
+	if zz.Bool("usage.composed") {
+		u.OwnerReferences = []metav1.OwnerReference{{APIVersion: "example.org/v1", Kind: "XR", Name: "xr", UID: "uid-xr", Controller: ptrTo(true)}}
+	}
 	deleting := zz.Bool("usage.deleting")
 	otherUsage := zz.Bool("other.usage.exists")
 	if otherUsage {
@@ -281,7 +285,13 @@ func HarnessC19Reconciler() {
 	}
 	if hasBy {
 		zz.Cover("owned-by-using")
-		zz.Assert("usage-owned-by-its-using-resource", len(su.OwnerReferences) > 0 && su.OwnerReferences[0].UID == "uid-using")
+		owned := false
+		for _, o := range su.OwnerReferences {
+			if o.UID == "uid-using" {
+				owned = true
+			}
+		}
+		zz.Assert("usage-owned-by-its-using-resource", owned)
 	}
 	zz.Observe("ready", string(su.Status.GetCondition(xpv1.TypeReady).Status))
 }
